@@ -143,12 +143,17 @@ structure Quirks where
       pushed to is served while it has both waiters and elements (code: blocked clients are woken after EACH queued
       command, so a transaction's later commands see the list after a blocked client took its element). -/
   execAtomic : Bool
+  /-- `wake_client` looks at the connection BEFORE popping: a request for a client that is gone, closing or no
+      longer blocked on that key is dropped, the element stays in the list and the next waiter is notified; and
+      the hang-up probe unregisters a vanished blocked client at once, not at the end of the loop iteration
+      (code: the element is popped first and dropped when the client turns out not to be blocked). -/
+  wakeChecksClient : Bool
 deriving DecidableEq, Repr
 
 /-- The tree before the first blocking repair.  What the tree does on a given run is read from the source by the
     translator (Gen/Blocking.lean) and confirmed over TCP by lib/c13.py. -/
-def Quirks.code : Quirks := ⟨false, false, false, false, false, false, false, false, false⟩
-def Quirks.fixed : Quirks := ⟨true, true, true, true, true, true, true, true, true⟩
+def Quirks.code : Quirks := ⟨false, false, false, false, false, false, false, false, false, false⟩
+def Quirks.fixed : Quirks := ⟨true, true, true, true, true, true, true, true, true, true⟩
 
 structure State where
   store : List (Key × Elem) := []
@@ -238,12 +243,21 @@ def notifyN : Nat → Key → State → State
   | 0, _, s => s
   | n+1, k, s => notifyN n k (notify k s)
 
+/-- Is the connection named by a wake-up request in the table and blocked on the request's key? -/
+def wakeTargetOk (s : State) (w : Wake) : Bool :=
+  isBlockedLive s w.conn &&
+    match (s.conns w.conn).blocked with
+    | some b => b.keys.contains w.key
+    | none => false
+
 /-- `wake_client` for the request at the head of the wake queue. -/
 def wakeOne (q : Quirks) (s : State) : State :=
   match s.wakeQ with
   | [] => s
   | w :: rest =>
     let s0 : State := { s with wakeQ := rest }
+    if q.wakeChecksClient = true ∧ wakeTargetOk s0 w = false then notify w.key s0
+    else
     match popElem w.op w.key s0.store with
     | none => s0
     | some (e, st') =>
@@ -283,7 +297,7 @@ def serveKeys (q : Quirks) (ks : List Key) (s : State) : State :=
 
 /-- The `if has_pending_wakeups() { process_wakeups() }` at the end of `process_normal_command`. -/
 def drain (q : Quirks) (s : State) : State :=
-  if q.wakeAtPush = true then iter (wakeOne q) (if q.drainAll = true then s.wakeQ.length else wakeBatch) s else s
+  if q.wakeAtPush = true then iter (wakeOne q) (if q.drainAll = true then s.wakeQ.length + s.registry.length else wakeBatch) s else s
 
 /-- LPUSH/RPUSH/LPOP/RPOP/BLPOP/BRPOP executed for the client on wire connection `c`; `cid` is the
     connection id the handler receives: `c` itself, or 0 when called from `handle_exec`. -/
@@ -504,14 +518,23 @@ def batchOkF (q : Quirks) (now : Nat) (c : Conn) : List Cmd → State → Bool
       (if q.deferBatchWhenBlocked = true ∧ ((topCmd q now c s cmd).conns c).blocked.isSome = true then true
        else batchOkF q now c r (topCmd q now c s cmd))
 
-/-- No hang-up while blocked (the element under way to a peer that has just gone is lost under every design:
-    `Ferrous.C13.conservation_fails_disconnect_in_flight_even_fixed`); batches as above. -/
+/-- Has the server looked at the socket of every blocked client whose peer has gone?  (No registry entry names a
+    connection that is still blocked although its peer has closed.) -/
+def calmReg (s : State) : Bool :=
+  s.registry.all fun e => !((s.conns e.2.conn).peerClosed && (s.conns e.2.conn).blocked.isSome)
+
+/-- * A blocked client may hang up only when the server probes blocked sockets and unregisters a vanished client at
+      once (`noticeBlockedHangup`, `wakeChecksClient`), and then no batch is processed between the hang-up and that
+      probe (`reap`): what is written into a socket whose peer has vanished UNNOTICED is lost under every design
+      (`Ferrous.C13.conservation_fails_disconnect_in_flight_even_fixed`) — this window is all that stays excluded;
+    * batches as above. -/
 def eventOkF (q : Quirks) (s : State) : Event → Bool
   | .conn c now cmds =>
-    if canRun s c = true then
+    calmReg s &&
+    (if canRun s c = true then
       batchOkF q now c ((s.conns c).pending ++ cmds) (setConn s c fun cs => { cs with pending := [] })
-    else true
-  | .hangup c => (s.conns c).blocked.isNone
+    else true)
+  | .hangup c => (s.conns c).blocked.isNone || (q.noticeBlockedHangup && q.wakeChecksClient)
   | _ => true
 
 def allowedFixedFrom (q : Quirks) : State → List Event → Bool
